@@ -36,6 +36,17 @@ CLAIMED["C07"] = dict(
     technique="Lean 4 state-machine theorem + differential runs (call sequences vs fresh process; CLI under several hash seeds)",
 )
 
+# additions made after the builders' notes were written (end-to-end theorems on the composed pipeline model)
+EXTRA_TEXT = {
+    "C01": " End to end: pipeline_ranked_nonincreasing, pipeline_qvals_spec, pipeline_threshold_sound and pipeline_report_alignment state the same for the composed model PgFdr.Pipeline.run of get_protein_group_results, for every grouping / razor / competition configuration, every input and every recorded shuffle, cut map and score vector; the check runs whole get_protein_group_results calls for randomly chosen shipped methods against that model (harness/pipeline.py) with the C01 statement as the oracle.",
+    "C06": " End to end: pipeline_rows_consistent and pipeline_rows_disjoint (no protein in two rows; the former partial theorem closed through the C03/C04 partition and C02 sub-permutation theorems) hold for every successful PgFdr.Pipeline.run under the single hypothesis that peptide keys are distinct (the input is a dict); whole-pipeline runs of shipped methods are compared with the model and judged by the C06 oracle with an independently recomputed peptide-level cutoff.",
+    "C04": " The last sentence of the property is proved on the composed model: rescue_trivial_when_unshared (ranking, estimates and q-values of the rescue pass equal those of plain subset grouping when no peptide is shared and scores are distinct), _rows, _ties (existence of shuffles) and _ties_partial (classic strategy, permutation); with ties under picked strategies run-by-run equality is false (the shuffle decides which tied twin survives) and is not claimed.",
+    "C10": " purity_rescued_grouping and purity_reported_groups extend purity to the rescue stage and to every row of a successful Pipeline.run (all groupings and strategies) under MarkerOnlyAsPrefix.",
+    "C18": " shipped_methods_guarantees instantiates the end-to-end ranking / q-value / row-consistency theorems of C01 and C06 for the pipeline configuration of every shipped method (table regenerated from the TOML files on every run); no_remap_named_methods_do_not_remap is a naming obligation over the same table.",
+    "C07": " pipeline_calls_independent proves, for the concrete composed model the driver executes, that along any sequence of inputs every call on a reused configuration returns what a call on a fresh one returns; every call of the real call sequences is compared with that model.",
+    "C17": " About 4 % of the cases run whole rescue-method pipelines and compare the cutoff the callers obtain (the value the rescue pass reports with) with the composed model and with an independent recomputation.",
+}
+
 NOT_YET = {}
 # properties whose check exists but is not claimed yet (e.g. waiting for a fix commit or a review)
 HOLD = set()
@@ -82,7 +93,7 @@ def main():
                 "evidence_file": f"evidence/{pid}.json",
                 "replay_cmd_template": f"./check {pid} --replay {{path}}",
                 "engine": "pgfdr-lean",
-                "level_claimed": {"category": c.get("category", "proof"), "text": c["text"], "design_ref": c["design_ref"]},
+                "level_claimed": {"category": c.get("category", "proof"), "text": c["text"] + EXTRA_TEXT.get(pid, ""), "design_ref": c["design_ref"]},
                 "level_note": c["note"] if c.get("raw_note") else NOTE_COMMON % pid + c["note"],
                 "technique": c["technique"],
             }
